@@ -12,14 +12,31 @@ import (
 
 // ModelledCheckers are the checkers transliterated in coq/theories/Model_Checkers.v (run_by_name).
 var ModelledCheckers = []string{"appendAssign", "appendCombine", "badRegexp", "dupOption", "evalOrder", "filepathJoin", "flagName",
-	"newDeref", "nilValReturn", "rangeAppendAll", "regexpPattern", "regexpSimplify", "sortSlice", "truncateCmp", "truncateCmp/noskip", "typeDefFirst"}
+	"newDeref", "nilValReturn", "rangeAppendAll", "regexpPattern", "regexpSimplify", "sortSlice", "truncateCmp", "truncateCmp/noskip", "typeDefFirst",
+	// Model_Checkers2.v
+	"builtinShadowDecl", "defaultCaseOrder", "emptyFallthrough", "initClause", "singleCaseSwitch", "elseif", "elseif/skipBalanced=false",
+	"deferInLoop", "unnamedResult", "unnamedResult/checkExported=true", "paramTypeCombine", "ptrToRefParam", "sloppyTypeAssert",
+	"octalLiteral", "hexLiteral", "weakCond", "methodExprCall", "dupBranchBody", "underef", "underef/skipRecvDeref=false",
+	"captLocal", "captLocal/paramsOnly=false", "builtinShadow", "exitAfterDefer"}
+
+// ModelledVariant maps a non-default parameter variant of a modelled checker to its model name ("" = not modelled).
+func ModelledVariant(name, tag string) string {
+	if name == "truncateCmp" && tag == "skipArchDependent=false" {
+		return "truncateCmp/noskip"
+	}
+	switch name + "/" + tag {
+	case "elseif/skipBalanced=false", "unnamedResult/checkExported=true", "underef/skipRecvDeref=false", "captLocal/paramsOnly=false":
+		return name + "/" + tag
+	}
+	return ""
+}
 
 // subject-bearing modelled checkers whose warnings carry a recognition verdict (C20 tie)
-var modelledSubject = []string{"appendAssign", "appendCombine", "filepathJoin", "flagName", "newDeref", "nilValReturn", "rangeAppendAll", "sortSlice", "truncateCmp"}
+var modelledSubject = []string{"appendAssign", "appendCombine", "exitAfterDefer", "filepathJoin", "flagName", "newDeref", "nilValReturn", "rangeAppendAll", "sortSlice", "truncateCmp"}
 
 var witnessNS = map[string]bool{"ns_append_pkgfunc_same": true, "ns_new_pkgfunc_same": true, "ns_sort_local": true, "ns_filepath_alias": true, "ns_flag_pkgvar": true, "ns_cast_pkgfunc": true, "ns_nil_local": true}
 
-const tieHeader = "From GC Require Import Base GoAst Model_Checkers.\nOpen Scope string_scope.\nOpen Scope N_scope.\n\n"
+const tieHeader = "From GC Require Import Base GoAst Model_Checkers Model_Checkers2.\nOpen Scope string_scope.\nOpen Scope N_scope.\n\n"
 
 func obsTerm(o ModelObs) string {
 	if o.Panic {
@@ -125,7 +142,7 @@ func writeTie(s *Shared, dir string, all []*Pkg, obs []*FileRun, starts map[*Fil
 				items = append(items, fmt.Sprintf("(%s, %s)", coqfmt.Str(name), obsTerm(o)))
 			}
 			tc := tieCase{desc: p.Name + "/" + f.Name + " " + p.Origin, nodes: n, file: term,
-				term: fmt.Sprintf("case_detail @FILE@ [%s]", strings.Join(items, "; "))}
+				term: fmt.Sprintf("case_detail2 @FILE@ [%s]", strings.Join(items, "; "))}
 			switch p.Stream {
 			case "S1":
 				c07 = append(c07, tc)
@@ -145,7 +162,7 @@ func writeTie(s *Shared, dir string, all []*Pkg, obs []*FileRun, starts map[*Fil
 					}
 				}
 				c20 = append(c20, tieCase{desc: p.Name + "/" + f.Name, nodes: n, file: term,
-					term: fmt.Sprintf("namesake_detail @FILE@ [%s]", strings.Join(its, "; "))})
+					term: fmt.Sprintf("namesake_detail2 @FILE@ [%s]", strings.Join(its, "; "))})
 			}
 		}
 	}
